@@ -760,6 +760,9 @@ class _Frame:
             st.env[tgt.id] = v
         elif isinstance(tgt, (ast.Tuple, ast.List)):
             n = len(tgt.elts)
+            if not any(isinstance(e, ast.Starred) for e in tgt.elts):
+                self.rec.pops.append(POp("unpack", v, n, st.pc, self.loops, self.trys, self.seq(), self.qualname,
+                                         getattr(tgt, "lineno", 0), getattr(tgt, "col_offset", 0)))
             for i, e in enumerate(tgt.elts):
                 if isinstance(e, ast.Starred):
                     self.bind(e.value, T("unknown", ("starred-unpack",)), st, stmt, record)
